@@ -350,4 +350,85 @@ example : pton6 (ntop6 [32,1,13,184,0,0,0,0,0,0,0,0,0,0,0,1]) = some [32,1,13,18
     0 ∉ ntop6 [32,1,13,184,0,0,0,0,0,0,0,0,0,0,0,1] ∧ 91 ∉ ntop6 [32,1,13,184,0,0,0,0,0,0,0,0,0,0,0,1] ∧
     93 ∉ ntop6 [32,1,13,184,0,0,0,0,0,0,0,0,0,0,0,1] := by decide +kernel
 
+/-! ### blanks and control bytes in the host part -/
+
+
+theorem pton4Aux_chars : ∀ (n : Nat) (s : Bytes) (l : List Nat), pton4Aux n s = some l → ∀ x ∈ s, isDigit x = true ∨ x = 46 := by
+  intro n
+  induction n with
+  | zero => intro s l h; simp [pton4Aux] at h
+  | succ k ih =>
+    intro s l h x hx
+    obtain ⟨hsplit, hdig⟩ := spanDigits_split s
+    unfold pton4Aux at h
+    simp only [] at h
+    cases ho : octet (spanDigits s).1 with
+    | none => rw [ho] at h; cases h
+    | some o =>
+      rw [ho] at h
+      simp only [] at h
+      rw [← hsplit] at hx
+      rcases List.mem_append.mp hx with hx1 | hx2
+      · exact Or.inl (hdig x hx1)
+      · cases hr : (spanDigits s).2 with
+        | nil => rw [hr] at hx2; cases hx2
+        | cons c r' =>
+          rw [hr] at h hx2
+          by_cases hc : c = 46
+          · subst hc
+            simp only [] at h
+            split at h
+            · cases h
+            · cases hp : pton4Aux k r' with
+              | none => rw [hp] at h; simp at h
+              | some l' =>
+                rcases List.mem_cons.mp hx2 with rfl | hx3
+                · exact Or.inr rfl
+                · exact ih r' l' hp x hx3
+          · exfalso
+            revert h
+            cases c with
+            | zero => simp
+            | succ c' => 
+              intro h
+              split at h <;> simp_all
+
+
+theorem cstr_sub (s : Bytes) (x : Nat) (h : x ∈ cstr s) : x ∈ s := by
+  unfold cstr at h; exact (List.takeWhile_sublist _).subset h
+
+/-- T13 (a blank or control byte in the host part): whatever the rest of the text is — a complete dotted quad in front, a valid
+    port behind — an unbracketed host part containing a byte ≤ 32 is rejected. -/
+theorem blank_in_host_rejected (s : Bytes) (p : Parsed) (hp : addressParser s = some p) (hv : p.v6 = false)
+    (x : Nat) (hx : x ∈ cstr p.host) (hle : x ≤ 32) : addressInit s = .invalid := by
+  unfold addressInit
+  split
+  · rfl
+  · rw [hp]
+    simp only [hv, Bool.false_eq_true, if_false]
+    have hxh : x ∈ p.host := cstr_sub _ _ hx
+    have hns : p.host ≠ star := by intro e; rw [e] at hxh; simp [star] at hxh; omega
+    have hnl : p.host ≠ localhost := by
+      intro e; rw [e] at hxh
+      have : ∀ y ∈ localhost, 33 ≤ y := by decide
+      have := this x hxh; omega
+    split
+    · rfl
+    · simp only [hns, hnl, if_false]
+      split
+      · rfl
+      · have hnone : ∀ a b c d, pton4 (cstr p.host) ≠ some [a, b, c, d] := by
+          intro a b c d hq
+          rcases pton4Aux_chars 4 _ _ hq x hx with h1 | h1
+          · unfold isDigit at h1; simp at h1; omega
+          · omega
+        split
+        · rename_i a b c d hq; exact absurd hq (hnone a b c d)
+        · simp
+          exact ⟨x, hx, fun h33 => by omega⟩
+
+example : addressInit (bytes "1.2.3.4 junk:80") = .invalid := by decide +kernel
+example : addressInit (bytes "127.0.0.1\t]") = .invalid := by decide +kernel
+
+
 end Pistache.Net.Props
